@@ -214,6 +214,82 @@ class CachedEvaluationMapper(CachedMapper, EvaluationMapper):
         EvaluationMapper.__init__(self, context=context)
         self._cache = _SHARED''',
      "all CachedEvaluationMapper instances share one cache regardless of context"),
+    # ---------------- C14
+    ("c14-namegen-ignores-taken", "C14", CC,
+     """                if cse_name not in self.cse_names:
+                    break""",
+     """                if True:
+                    break""",
+     "name generator ignores names already in use"),
+    ("c14-append-before-child", "C14", CC,
+     [("""            cse_str = self.rec(expr.child, PREC_NONE)
+""", """            _slot = len(self.cse_name_list)
+            cse_str = self.rec(expr.child, PREC_NONE)
+"""), ("""            self.cse_name_list.append((cse_name, cse_str))""",
+       """            self.cse_name_list.insert(_slot, (cse_name, cse_str))""")], None,
+     "assignment inserted where the list ended before the child was printed: nested "
+     "wrappers are used before they are assigned"),
+    ("c14-cse-to-name-not-updated", "C14", CC,
+     "            self.cse_to_name[expr.child] = cse_name\n",
+     "            pass\n",
+     "cse_to_name not updated: every occurrence is assigned again"),
+    ("c14-copy-shares-list", "C14", CC,
+     "        self.cse_name_list = cse_name_list[:]\n",
+     "        self.cse_name_list = cse_name_list\n",
+     "copy() shares the assignment list object with its parent"),
+    ("c14-subtraction-loses-sign", "C14", STR,
+     """                [self.format(" - %s", entry) for entry in negatives])""",
+     """                [self.format(" - %s", entry) if i == 0 else self.format(" + %s", entry)
+                 for i, entry in enumerate(negatives)])""",
+     "a + -1*b + -1*c => a - b + c: sign lost on the second negative term"),
+    ("c14-pow-args-swapped", "C14", CC,
+     """        return self.format("pow(%s, %s)",
+                self.rec(expr.base, PREC_NONE),
+                self.rec(expr.exponent, PREC_NONE))""",
+     """        return self.format("pow(%s, %s)",
+                self.rec(expr.exponent, PREC_NONE),
+                self.rec(expr.base, PREC_NONE))""",
+     "pow() arguments swapped"),
+    ("c14-floordiv-loses-parens", "C14", CC,
+     '        return self.format("(%s/%s)",',
+     '        return self.format("%s/%s",',
+     "map_floor_div loses its parentheses"),
+    ("c14-revert-d6", "C14", CC,
+     "                    force_parens_around=(Quotient, Remainder)),",
+     "                    ),",
+     "fixed defect D6 comes back (product loses forced parentheses)"),
+    ("c14-revert-d2", "C14", CC,
+     "                cse_name_list, self.cse_to_name)",
+     "                cse_name_list)",
+     "fixed defect D2 comes back in part (copies forget assigned subexpressions)"),
+    ("c14-if-branches-swapped-when-nested", "C14", CC,
+     """        return self.format("(%s ? %s : %s)",
+                self.rec(expr.condition, PREC_NONE),
+                self.rec(expr.then, PREC_NONE),
+                self.rec(expr.else_, PREC_NONE),
+                )""",
+     """        from pymbolic.primitives import If
+        a, b = expr.then, expr.else_
+        if isinstance(expr.else_, If) and isinstance(expr.then, If):
+            a, b = b, a
+        return self.format("(%s ? %s : %s)",
+                self.rec(expr.condition, PREC_NONE),
+                self.rec(a, PREC_NONE),
+                self.rec(b, PREC_NONE),
+                )""",
+     "ternary branches swapped only when both are ternaries themselves"),
+    ("c14-mixin-prefix-collision", "C14", STR,
+     """            for cse_name in generate_cse_names():
+                if cse_name not in self.cse_names:
+                    break
+
+            self.cse_name_list.append((cse_name, str_child))""",
+     """            for cse_name in generate_cse_names():
+                if cse_name not in self.cse_names or expr.prefix is None:
+                    break
+
+            self.cse_name_list.append((cse_name, str_child))""",
+     "generic CSE-splitting mix-in reuses CSE<n> names for unprefixed wrappers"),
 ]
 
 
@@ -226,9 +302,11 @@ def run_one(m, runs, tier):
         path = os.path.join(tmp, rel)
         with open(path) as f:
             src = f.read()
-        if src.count(old) < 1:
-            return mid, prop, "STALE (pattern not found)", what
-        src = src.replace(old, new, 1)
+        pairs = old if isinstance(old, list) else [(old, new)]
+        for o, n in pairs:
+            if src.count(o) < 1:
+                return mid, prop, "STALE (pattern not found)", what
+            src = src.replace(o, n, 1)
         with open(path, "w") as f:
             f.write(src)
         env = dict(os.environ)
